@@ -71,6 +71,7 @@ def run(eng, R):
     shi = eng.csrc(hi)
     SUB = "np.delete(np.delete(%s, _fx, axis=0), _fx, axis=1)"
     ok = common.like_any(shi, ["_fx = " + FX, "self._hessian_inv = self._fill_in_zeroes_for_fixed(np.linalg.inv(%s))" % (SUB % "self.hessian")],
+                         ["_h = self.hessian", "_fx = " + FX, "self._hessian_inv = self._fill_in_zeroes_for_fixed(np.linalg.inv(%s))" % (SUB % "_h")],
                          ["self._hessian_inv = self._fill_in_zeroes_for_fixed(np.linalg.inv(self._remove_zeroes_for_fixed(self.hessian)))"])
     R.ob("H-sub", "hessian_inv:sub-block", ok, eng.where(hi), "the Hessian must be inverted on the free sub-block and zero-filled for fixed parameters")
     sym = [n for n in ast.walk(eng.cnode(hi)) if isinstance(n, ast.Assign) and any(self_attr(t) == "_hessian_inv" for t in n.targets)]
@@ -90,6 +91,7 @@ def run(eng, R):
     src = eng.csrc(cm)
     ok = common.like_any(src, ["_fx = " + FX, "self._par_cor_mat = self._fill_in_zeroes_for_fixed(CovMat(%s).cor_mat)" % (SUB % "self.cov_mat")],
                          ["_cm = self.cov_mat", "_fx = " + FX, "self._par_cor_mat = self._fill_in_zeroes_for_fixed(CovMat(%s).cor_mat)" % (SUB % "_cm")],
+                         ["_cm = self.cov_mat", "_cm2 = _cm", "_fx = " + FX, "self._par_cor_mat = self._fill_in_zeroes_for_fixed(CovMat(%s).cor_mat)" % (SUB % "_cm2")],
                          ["self._par_cor_mat = self._fill_in_zeroes_for_fixed(CovMat(self._remove_zeroes_for_fixed(self.cov_mat)).cor_mat)"],
                          ["_cm = self.cov_mat", "self._par_cor_mat = self._fill_in_zeroes_for_fixed(CovMat(self._remove_zeroes_for_fixed(_cm)).cor_mat)"])
     R.ob("H-cor", "MinimizerBase.cor_mat", ok, eng.where(cm), "the parameter correlation matrix must be the normalisation of the covariance on the free sub-block")
